@@ -18,14 +18,17 @@ TERMINATORS = ("jmp", "jcc", "call", "ret", "sys")
 SYMOFF = {"jmp": 1, "jcc": 2, "call": 1}
 PATCHES = ["nop", "nop\nnop", "xchg %ax, %ax", "jmp {L}", "ret", "call {L}", "jne {L}\nnop", "nop\n.Lt:\nnop\njmp .Lt", "nop\ncall {L}\nnop",
            "nop\nret\nnop", "jne {L}", ".Ls:\ndec %eax\njne .Ls", "jmp .Le\n.string \"hi\"\n.Le:\nnop", ".Lq:\nnop", "call {L}\nxchg %ax, %ax",
-           "nop\n.Lm:\njne .Lm\nret", "call {L}\ncall {L}", "movl $1, {L}(%rip)", "lea {L}+8(%rip), %rax"]
+           "nop\n.Lm:\njne .Lm\nret", "call {L}\ncall {L}", "movl $1, {L}(%rip)", "lea {L}+8(%rip), %rax",
+           "jne .Lv\nnop\n.Lv:\n.Lw:\nnop"]        # a conditional branch to the first of two labels at one place
 # text patches for data blocks: bytes with a label behind them
 DATA_TEXT_PATCH = [".byte 0x77\n.byte 0x77\n.Ld:", ".Lh:\n.byte 0x55"]
 # the symbolic operands a patch text asks for: template -> [(offset inside the patch, addend)], all naming {L}
 PATCH_EXPRS = {"jmp {L}": [(1, 0)], "call {L}": [(1, 0)], "jne {L}\nnop": [(1, 0)], "nop\ncall {L}\nnop": [(2, 0)], "jne {L}": [(1, 0)],
                "call {L}\nxchg %ax, %ax": [(1, 0)], "call {L}\ncall {L}": [(1, 0), (6, 0)], "movl $1, {L}(%rip)": [(2, 0)],
                "lea {L}+8(%rip), %rax": [(3, 8)]}
-CFI_PATCHES = ["pushq %rax\n.cfi_adjust_cfa_offset 8\npopq %rax\n.cfi_adjust_cfa_offset -8", ".cfi_remember_state\nnop\n.cfi_undefined 40\nnop\n.cfi_restore_state"]
+CFI_PATCHES = ["pushq %rax\n.cfi_adjust_cfa_offset 8\npopq %rax\n.cfi_adjust_cfa_offset -8", ".cfi_remember_state\nnop\n.cfi_undefined 40\nnop\n.cfi_restore_state",
+               # a directive in front of a label (an empty block that the assembler folds into the next one) and one behind it
+               ".cfi_remember_state\n.Lc:\n.cfi_undefined 40\nnop\n.cfi_restore_state"]
 DATA_PATCH = [b"\x01", b"\x02\x03", b"\x04\x05\x06\x07"]
 
 
@@ -33,7 +36,7 @@ class Case:
     """A module description (pure data), independent of gtirb objects, so that it can be rebuilt identically."""
 
     def __init__(self, rnd, nfun_max=2, with_data=True, with_aux=True, with_cfi=True, mods="ins,del,rep", with_funcs=True, max_mods=3,
-                 closed_tail=False, to_proxy=True, with_lead=False, with_scope=True, with_misc=True, with_ext=False, cfi_patches=False, data_first=0.12, whole_del=0.0, inner_data=0.0, orphan_code=0.0, with_syscall=False):
+                 closed_tail=False, to_proxy=True, with_lead=False, with_scope=True, with_misc=True, with_ext=False, cfi_patches=False, data_first=0.12, whole_del=0.0, inner_data=0.0, orphan_code=0.0, with_syscall=False, late_entry=0.0):
         self.rnd = rnd
         # bytes in front of the first block that belong to no block (the interval starts at 0x1000 - lead, the blocks at 0x1000)
         self.lead = rnd.choice((1, 2, 5)) if with_lead and rnd.random() < 0.12 else 0
@@ -87,6 +90,13 @@ class Case:
             if x.get("dsym"):
                 x["dsym"] = {o: rnd.choice(code_idx) for o in x["dsym"]}
         self.nfun = nfun
+        # the entry of a function is its first block, or (late_entry) any other of its blocks: a function whose cold part comes first
+        self.entry_of = {}
+        if late_entry:
+            for f in range(nfun):
+                own = [i for i, x in enumerate(layout) if x.get("func") == f]
+                if len(own) > 1 and rnd.random() < late_entry:
+                    self.entry_of[f] = rnd.choice(own[1:])
         # labels: every block gets a start label L<i>; some get extra start / end labels
         self.extra_start = {i for i in range(len(layout)) if rnd.random() < 0.2}
         self.end_labels = {i for i in range(len(layout)) if rnd.random() < 0.3}
@@ -189,7 +199,7 @@ class Case:
             if isinstance(v, dict):
                 return {"dict": [[enc(k), enc(x)] for k, x in v.items()]}
             return v
-        return {k: enc(getattr(self, k)) for k in ("blocks", "nfun", "extra_start", "end_labels", "aux", "align", "cfi", "entry", "mods", "lead", "misc", "scope_groups")}
+        return {k: enc(getattr(self, k)) for k in ("blocks", "nfun", "extra_start", "end_labels", "aux", "align", "cfi", "entry", "mods", "lead", "misc", "scope_groups", "entry_of")}
 
     @classmethod
     def from_json(cls, d):
@@ -207,6 +217,7 @@ class Case:
         c.lead = 0
         c.misc = []
         c.scope_groups = {}
+        c.entry_of = {}
         for k, v in d.items():
             setattr(c, k, dec(v))
         c.blocks = [{kk: ([tuple(i) for i in vv] if kk == "ins" else vv) for kk, vv in b.items()} for b in c.blocks]
@@ -298,7 +309,8 @@ def build(case):
     fobjs = []
     for f in range(case.nfun):
         own = [i for i, x in enumerate(layout) if x.get("func") == f]
-        fobjs.append(add_function_object(m, syms[own[0]], gbs[own[0]], {gbs[i] for i in own[1:]}))
+        e = getattr(case, "entry_of", {}).get(f, own[0])
+        fobjs.append(add_function_object(m, syms[e], gbs[e], {gbs[i] for i in own if i != e}))
     # a consistent CFG
     code = [i for i, x in enumerate(layout) if x["kind"] == "c"]
     callers = {f: [] for f in range(case.nfun)}
@@ -347,7 +359,10 @@ def build(case):
         tab = (_auxdata.types, _auxdata.encodings, _auxdata.profile, _auxdata.sccs)[t].get_or_insert(m)
         tab[gbs[i]] = ("t", "string", 7, 3)[t]
     for i, dm in case.cfi.items():
-        for d, ds in dm.items():
+        items = list(dm.items())
+        if len(items) > 1 and (i + len(layout)) % 3 == 0:
+            items.reverse()            # the order of the entries of an aux table carries no meaning
+        for d, ds in items:
             m.aux_data["cfiDirectives"].data[gtirb.Offset(gbs[i], d)] = [(DNAME[c], doperands(c, did) if c not in 'SEMR' else [did], NULL_UUID) for c, did in ds]
     if case.entry is not None:
         m.entry_point = gbs[case.entry]
